@@ -25,7 +25,7 @@ RULE = (
 ASSUMPTIONS = [
     "lone surrogates are not Unicode scalar values and are excluded from strings",
     "NaN is excluded from set elements and mapping keys only; 'float' values are doubles whose float32 rounding is finite",
-    "set elements / mapping keys are restricted to hashable types (leaves and tuples of them) because the decoder builds set/dict",
+    "set elements / mapping keys range over every type with a hashable Python form (leaves, tuples, sequences as tuples, sets as frozensets, variants); a mapping cannot be a key (Python has no hashable dict, so the API has no value of such a type)",
 ]
 REQUIRED_TAGS = {
     "quick": ["disturbed-serializer", "has:nonascii", "has:node", "has:boundary-int", "type:variant", "type:mapping"],
@@ -41,10 +41,12 @@ def _gt():
     return gtirb
 
 
-def type_tags(tree, out):
+def type_tags(tree, out, in_key=False):
     out.add("type:" + tree[0])
-    for s in tree[1]:
-        type_tags(s, out)
+    if in_key and tree[0] in ("sequence", "set", "variant"):
+        out.add("key-type:" + tree[0])
+    for i, s in enumerate(tree[1]):
+        type_tags(s, out, in_key or tree[0] == "set" or (tree[0] == "mapping" and i == 0))
 
 
 def value_tags(tree, jv, out):
